@@ -637,6 +637,13 @@ def c14_hashseed(res):
         res.fail("property", "C14: results depend on PYTHONHASHSEED: %r" % digests, dict(type="c14hash"))
 
 
+def c14_objects_history(res, rng, kind):
+    """the rating OBJECTS persist from call to call on one model (a league); before every call a second set is rebuilt from nothing
+    but the (mu, sigma) values on a fresh or the same model: a result may depend on the values only, not on what an object
+    has been through (marks left on it by earlier calls, games that left its sigma bit-for-bit unchanged, ...)"""
+    c20_league(res, rng, kind, [], prop="C14", rebuild_p=1.0)
+
+
 def c14_item(res, item):
     rng = random.Random(res.seed)
     res.case(item)
@@ -653,6 +660,9 @@ def c14_item(res, item):
                 res.fail("property", "C14: %s wrote model attribute(s) %s" % (op, sorted(set(log))), item); return
             if json.dumps(core.jsonable(got)) != json.dumps(core.jsonable(want)):
                 res.fail("property", "C14: call %d depends on the call history" % k, item); return
+    elif item.get("type") == "c20league":
+        for rep in range(6):
+            c14_objects_history(res, rng, item.get("kind", "PL"))
     else:
         for kind in KINDS:
             c14_history(res, rng, kind)
@@ -664,6 +674,8 @@ def c14(res):
         for kind in KINDS:
             res.case(dict(kind=kind, rep=rep, what="history"))
             c14_history(res, rng, kind)
+            res.case(dict(kind=kind, rep=rep, what="objects with a history"))
+            c14_objects_history(res, rng, kind)
     for rep in range(size(res, 1, 6)):
         for kind in KINDS:
             res.case(dict(kind=kind, rep=rep, what="threads"))
@@ -679,7 +691,9 @@ def c14(res):
     p_pred.corr_pred(res, pg, "property", "C14 predictions depend only on the model's parameters and the values (many models in one process)")
     for g in pg[:: max(1, len(pg) // 60)]:
         p_pred.reconfigure_sequence(res, g, rng, "C14")
-    res.rule = ("(i) every attribute write on a traced subclass of the model during random rate/predict calls with per-call tau/limit_sigma, and "
+    res.rule = ("(0) leagues in which the rating OBJECTS persist on one model, against players rebuilt from their (mu, sigma) values before every game "
+                "(incl. polarised leagues whose foregone conclusions leave sigma bit-for-bit unchanged): bit-identical; "
+                "(i) every attribute write on a traced subclass of the model during random rate/predict calls with per-call tau/limit_sigma, and "
                 "model.__dict__ before/after; (ii) each call on the shared model vs the same call on a fresh model with fresh rating objects "
                 "(other ids, no names): bit-identical; (iii) 4 real threads on disjoint ratings through one shared model, switch interval 1e-6, "
                 "vs serial: bit-identical; (iv) a fixed sample re-run in subprocesses under PYTHONHASHSEED 0/1/4242/random: identical digest")
@@ -1221,13 +1235,20 @@ def c20_construct(res, kind, seen_ids):
                 res.fail("property", "C20: deepcopy of nested team lists does not preserve the ratings", inp); return
 
 
-def c20_league(res, rng, kind, games_out):
+def c20_league(res, rng, kind, games_out, prop="C20", rebuild_p=0.6):
     beta, kappa, tau = gen_config(rng, 0.6)
     cfg = dict(beta=beta, kappa=kappa, tau=tau, limit_sigma=rng.random() < 0.3)
     model = MODEL_CLS[kind](**cfg)
     npl = rng.randint(5, 10)
     sc = beta / core.DEFAULTS["beta"]
     A = [model.rating(rng.gauss(25, 8) * sc, rng.uniform(1, 9) * sc, "p%d" % i) for i in range(npl)]
+    polarised = rng.random() < 0.3
+    if polarised:
+        # a polarised league: settled players at the two ends of the range; squads of one kind meet squads of the other and the
+        # result is the expected one, so the game carries no information and leaves every sigma bit-for-bit where tau put it
+        npl = 10
+        A = [model.rating((1 if i % 2 else -1) * rng.uniform(17, 20) * beta, rng.uniform(0.05, 0.5) * beta, "p%d" % i) for i in range(npl)]
+        res.count("polarised_leagues")
     B = [model.rating(a.mu, a.sigma) for a in A]
     for gi in range(size(res, 40, 200)):
         nt = rng.randint(2, 4)
@@ -1236,22 +1257,37 @@ def c20_league(res, rng, kind, games_out):
         for k, p in enumerate(ids):
             tid[k % nt].append(p)
         ranks = encode_ranks(rng, random_weak_order(rng, nt))
+        if polarised and rng.random() < 0.6:
+            strong = rng.sample([i for i in range(npl) if i % 2], rng.randint(2, 4))
+            weak = rng.sample([i for i in range(npl) if not i % 2], rng.randint(2, 4))
+            tid, ranks = ([strong, weak], [1, 2]) if rng.random() < 0.5 else ([weak, strong], [2, 1])
+            nt = 2
+            res.count("foregone_conclusions")
         kw = dict(ranks=ranks)
         if rng.random() < 0.3: kw["tau"] = rng.choice([0.0, beta / 10])
         if rng.random() < 0.3: kw["limit_sigma"] = rng.random() < 0.5
         # B: serialise to (mu, sigma) and rebuild before some games (fresh model too, now and then)
-        if rng.random() < 0.6:
+        if rng.random() < rebuild_p:
             store = [(b.mu, b.sigma) for b in B]
             mB = MODEL_CLS[kind](**cfg) if rng.random() < 0.5 else model
             B = [mB.create_rating([m, s]) if rng.random() < 0.5 else mB.rating(m, s) for (m, s) in store]
             res.count("rebuilds")
         tA = [[A[p] for p in t] for t in tid]
         tB = [[B[p] for p in t] for t in tid]
-        inp = dict(type="c20league", kind=kind, cfg=cfg)
+        inp = dict(type="c20league", kind=kind, cfg=cfg, prop=prop)
         pa = (model.predict_win(tA), model.predict_draw(tA), model.predict_rank(tA))
         pb = (model.predict_win(tB), model.predict_draw(tB), model.predict_rank(tB))
         if pa != pb:
-            res.fail("property", "C20: predictions with rebuilt ratings differ from the originals at game %d" % gi, inp); return
+            res.fail("property", "%s: predictions with rebuilt ratings differ from the originals (objects with a history) at game %d" % (prop, gi), inp); return
+        if rng.random() < 0.2:
+            # a malformed call on the objects with a history, rejected and caught by the caller: it must leave no trace
+            bad = rng.choice([dict(scores=[1.0] * (nt + 1)), dict(ranks=[1] * (nt - 1)), dict(scores=["x"] * nt), dict(ranks=[None] * nt),
+                              dict(scores=[1.0] * nt, ranks=[1] * nt)])
+            try:
+                model.rate(tA, **bad)
+                res.fail("property", "%s: a malformed rate call (%s) was accepted" % (prop, sorted(bad)), inp); return
+            except (TypeError, ValueError):
+                res.count("rejected_calls_in_between")
         oA = model.rate(tA, **dict(kw, ranks=list(ranks)))
         oB = model.rate(tB, **dict(kw, ranks=list(ranks)))
         res.count("league_games")
@@ -1259,7 +1295,7 @@ def c20_league(res, rng, kind, games_out):
         for t, ta, tb in zip(tid, oA, oB):
             for p, a, b in zip(t, ta, tb):
                 if (a.mu, a.sigma) != (b.mu, b.sigma):
-                    res.fail("property", "C20: game %d: rebuilt player %d ends (%r, %r), original (%r, %r)" % (gi, p, b.mu, b.sigma, a.mu, a.sigma), inp)
+                    res.fail("property", "%s: game %d: a player rebuilt from its (mu, sigma) values (%d) ends (%r, %r), the object with a history (%r, %r)" % (prop, gi, p, b.mu, b.sigma, a.mu, a.sigma), inp)
                     return
                 A[p], B[p] = a, b
 
